@@ -6,6 +6,7 @@ import (
 	"strings"
 	"testing"
 
+	"github.com/256dpi/gomqtt/broker"
 	"github.com/256dpi/gomqtt/packet"
 	"github.com/256dpi/gomqtt/session"
 	"pgregory.net/rapid"
@@ -32,6 +33,7 @@ type Case struct {
 	QoS    []int    `json:"qos"` // qos of the n-th new message (cyclic)
 	FailAt int64    `json:"fail_at,omitempty"`
 	After  bool     `json:"after,omitempty"`
+	Window int      `json:"window,omitempty"` // ClientParallelPublishes (0 = default 10); the script never opens more handshakes than that
 }
 
 type verdict struct{ sig, msg string }
@@ -51,21 +53,21 @@ type slot struct {
 }
 
 type runner struct {
-	c        *Case
-	b        *bk.Broker
-	p        *peer.Peer
-	bconn    *memconn.Conn
-	consumed int64 // broker-side ops of earlier connections
-	slots    [2]*slot
-	msgN     int
-	used     map[string]int // consumed acks of the current connection
-	unknown  map[packet.ID]int
-	tags     map[string]int // tag -> qos
-	done     map[string]bool
-	retrans  bool
-	resumes  int
-	faultHit bool
-	released bool
+	c         *Case
+	b         *bk.Broker
+	p         *peer.Peer
+	bconn     *memconn.Conn
+	consumed  int64 // broker-side ops of earlier connections
+	slots     [2]*slot
+	msgN      int
+	used      map[string]int // consumed acks of the current connection
+	unknown   map[packet.ID]int
+	tags      map[string]int // tag -> qos
+	done      map[string]bool
+	retrans   bool
+	resumes   int
+	faultHit  bool
+	released  bool
 	relOnConn map[packet.ID]int // PUBRELs sent on the current connection
 }
 
@@ -209,6 +211,17 @@ func (r *runner) step(op string) *verdict {
 	case 'P':
 		switch s.state {
 		case idle:
+			if r.c.Window > 0 {
+				open := 0
+				for _, x := range r.slots {
+					if x.state != idle {
+						open++
+					}
+				}
+				if open >= r.c.Window {
+					return nil // a well behaved publisher respects the broker's flow control
+				}
+			}
 			r.msgN++
 			s.qos = r.c.QoS[(r.msgN-1)%len(r.c.QoS)]
 			s.tag = fmt.Sprintf("m%d-q%d", r.msgN, s.qos)
@@ -217,6 +230,13 @@ func (r *runner) step(op string) *verdict {
 			r.tags[s.tag] = s.qos
 			return r.send(&packet.Publish{ID: s.id, Message: packet.Message{Topic: "c07/t", Payload: []byte(s.tag), QOS: packet.QOS(s.qos)}})
 		case pubSent:
+			if r.c.Window > 0 {
+				// every PUBLISH, a duplicate too, takes a slot of the broker's publish
+				// window until a PUBCOMP returns one; with a small window a publisher
+				// that repeats a PUBLISH on a live connection only blocks itself
+				// (documented flow control), so these scripts do not do that
+				return nil
+			}
 			r.retrans = true
 			return r.send(&packet.Publish{ID: s.id, Dup: true, Message: packet.Message{Topic: "c07/t", Payload: []byte(s.tag), QOS: packet.QOS(s.qos)}})
 		}
@@ -421,7 +441,11 @@ type result struct {
 }
 
 func runCase(c *Case) (*verdict, result) {
-	b := bk.New(nil)
+	b := bk.New(func(m *broker.MemoryBackend, e *broker.Engine) {
+		if c.Window > 0 {
+			m.ClientParallelPublishes = c.Window
+		}
+	})
 	defer b.Shutdown()
 	b.Rec.SetAckMode(c.Mode)
 	r := &runner{c: c, b: b, unknown: map[packet.ID]int{}, tags: map[string]int{}, done: map[string]bool{}}
@@ -444,7 +468,7 @@ func runCase(c *Case) (*verdict, result) {
 
 	// ---- history oracle
 	curTag, curQoS := map[uint16]string{}, map[uint16]int{}
-	acks, pubacks := map[string]int{}, map[string]int{}
+	acks, pubacks, acksDone := map[string]int{}, map[string]int{}, map[string]int{}
 	ackedAtRel := map[string]int{}
 	for _, e := range b.Log.Events() {
 		pubSide := strings.HasPrefix(e.Actor, "broker<pub")
@@ -453,7 +477,7 @@ func runCase(c *Case) (*verdict, result) {
 			curTag[e.ID], curQoS[e.ID] = e.Tag, e.QoS
 		case pubSide && e.Op == "recv" && e.Type == "Pubrel":
 			if t, ok := curTag[e.ID]; ok {
-				ackedAtRel[t] = acks[t]
+				ackedAtRel[t] = acksDone[t] // acknowledgements the broker had been told about when this PUBREL arrived
 			}
 		case e.Actor == "backend" && e.Op == "Publish":
 			// exactly once: a PUBREL that the broker received after the backend had accepted the
@@ -464,6 +488,8 @@ func runCase(c *Case) (*verdict, result) {
 			}
 		case e.Actor == "backend" && e.Op == "ack":
 			acks[e.Tag]++
+		case e.Actor == "backend" && e.Op == "ack-done":
+			acksDone[e.Tag]++
 		case e.Actor == "probe" && e.Op == "pubrec-check":
 			if e.Note != "stored=true" {
 				return fail(&verdict{"pubrec/sent-before-recorded", fmt.Sprintf("PUBREC id=%d was sent while the publisher's session did not hold the PUBLISH", e.ID)})
@@ -500,6 +526,9 @@ func genScript(rt *rapid.T) *Case {
 	for i := 0; i < 4; i++ {
 		c.QoS = append(c.QoS, rapid.SampledFrom([]int{1, 2, 2}).Draw(rt, "qos"))
 	}
+	if c.Mode == "" || c.Mode == "goroutine" {
+		c.Window = rapid.SampledFrom([]int{0, 0, 1, 2}).Draw(rt, "window") // a small publish window that the script fills completely
+	}
 	return c
 }
 
@@ -524,7 +553,7 @@ func TestC07(t *testing.T) {
 		if c.FailAt == 0 {
 			for k := int64(1); k <= res.ops; k++ {
 				for _, after := range []bool{false, true} {
-					fc := &Case{Mode: c.Mode, Ops: c.Ops, QoS: c.QoS, FailAt: k, After: after}
+					fc := &Case{Mode: c.Mode, Ops: c.Ops, QoS: c.QoS, Window: c.Window, FailAt: k, After: after}
 					faultRuns++
 					run.Eval(1)
 					fv, fres := runCase(fc)
@@ -545,6 +574,8 @@ func TestC07(t *testing.T) {
 	fixed := []*Case{
 		{Ops: []string{"P0", "A0", "R0", "C0"}, QoS: []int{2}},
 		{Ops: []string{"P0", "A0"}, QoS: []int{1}},
+		{Ops: []string{"P0", "P1", "D", "P0", "A0", "P1", "A1", "R0", "C0", "R1", "C1"}, QoS: []int{2, 2}, Window: 2},
+		{Ops: []string{"P0", "D", "P0", "A0", "R0", "C0", "P0", "A0"}, QoS: []int{2, 1}, Window: 1},
 		{Ops: []string{"P0", "P1", "A1", "A0", "R1", "R0", "C0", "C1"}, QoS: []int{2, 2}},
 		{Ops: []string{"P0", "P0", "A0", "A0", "R0", "R0", "C0", "C0"}, QoS: []int{2}},
 		{Ops: []string{"R0", "P0", "A0", "D", "R0", "C0", "R0"}, QoS: []int{2}},
